@@ -319,7 +319,7 @@ Proof. split; vm_compute; split; reflexivity. Qed.
 (* (c) is not vacuous.  Words: 0 configuration, 1 colvar, 2 name, 3 hill, 4 x, 10 step, 11 restraint, 12 harmonic,
    13 metadynamics, 20 "d", 21 "h", 22 "m", 30.. numbers.  The state: global block, variable d, restraint h,
    metadynamics m with two hills; cut inside the second hill. *)
-Definition ex_biases : list bias := [mkB 11 12 21 0; mkB 13 13 22 1].
+Definition ex_biases : list bias := [mkB 11 12 21 0 []; mkB 13 13 22 1 []].
 Definition ex_head : list tok :=
   [TW 0; TO; TW 10; TW 30; TC;
    TW 1; TO; TW 2; TW 20; TW 4; TW 31; TC;
@@ -341,10 +341,10 @@ Proof.
     apply arr_here.
   - vm_compute. reflexivity.
   - right. split; [vm_compute; discriminate|]. split.
-    + exists (mkB 13 13 22 1). split; [right; left; reflexivity | vm_compute; reflexivity].
+    + exists (mkB 13 13 22 1 []). split; [right; left; reflexivity | vm_compute; reflexivity].
     + intros conf r2 v Hrb Hl. vm_compute in Hrb. inversion Hrb; subst conf r2.
       vm_compute in Hl. inversion Hl; subst v.
-      exists (mkB 13 13 22 1). split; [right; left; reflexivity|]. split; vm_compute; reflexivity.
+      exists (mkB 13 13 22 1 []). split; [right; left; reflexivity|]. split; vm_compute; reflexivity.
   - vm_compute. reflexivity.
   - vm_compute. reflexivity.
 Qed.
